@@ -77,6 +77,7 @@ func (o trOp) String() string {
 }
 
 type trScenario struct {
+	timedOut bool // the run did not become quiet in time: the trace may lack late actions
 	recover  bool
 	handlers []trHandler
 	init     []int
@@ -170,6 +171,9 @@ func trEncode(sc *trScenario, cert, obs []trAct) Case {
 	if !sc.recover {
 		c[0] = "0"
 	}
+	if sc.timedOut {
+		c[0] += "t"
+	}
 	c = append(c, strconv.Itoa(len(sc.handlers)))
 	for _, h := range sc.handlers {
 		c = append(c, h.cmd, h.flags())
@@ -227,7 +231,8 @@ func trDecode(c Case) (sc *trScenario, cert, obs []trAct, ok bool) {
 	if !ok1 || !ok2 {
 		return nil, nil, nil, false
 	}
-	sc.recover = rc == "1"
+	sc.recover = strings.Contains(rc, "1")
+	sc.timedOut = strings.Contains(rc, "t")
 	for j := 0; j < nh; j++ {
 		cmd, a := next()
 		fl, b := next()
@@ -1137,11 +1142,22 @@ func genTraceScenario(r *rand.Rand) *trScenario {
 	return sc
 }
 
+var trTimeouts int // runs that did not become quiet; after two, no further scenario is run
+
 func genTraceCase(r *rand.Rand) Case {
 	sc := genTraceScenario(r)
 	seed := r.Int63()
 	procs := []int{1, 2, 4, 16}[r.Intn(4)]
-	obs, _ := trRun(sc, seed, procs)
+	if trTimeouts >= 2 {
+		// the dispatcher hangs: do not spend 20s on every further case
+		sc = &trScenario{recover: true, timedOut: true}
+		return trEncode(sc, nil, nil)
+	}
+	obs, timedOut := trRun(sc, seed, procs)
+	if timedOut {
+		trTimeouts++
+		sc.timedOut = true
+	}
 	return trEncode(sc, c06Guess(sc, obs), obs)
 }
 
@@ -1189,7 +1205,11 @@ func init() {
 			if !ok {
 				return Result{Obs: "?args"}
 			}
-			return Result{Obs: "accept", Oracle: trOracle(sc, obs), Sig: trSig(sc, obs)}
+			res := Result{Obs: "accept", Oracle: trOracle(sc, obs), Sig: trSig(sc, obs)}
+			if sc.timedOut && res.Oracle == "" {
+				res.Oracle = "dispatcher-stalls: the client did not finish dispatching the events and become quiet within 20s"
+			}
+			return res
 		},
 	})
 }
